@@ -3,7 +3,7 @@
    (takeover_master, replace_failed_proxy, generate_new_free_proxy, chunk_nodes / cluster_nodes, to_slot_range, step). *)
 From UM Require Import Base.BytesDef Model.Ranges Model.Broker Proofs.BrokerBase
   Proofs.BrokerFailoverStruct Proofs.BrokerFailoverTakeover Proofs.BrokerFailoverView Proofs.BrokerFailoverStore
-  Proofs.BrokerFailoverReplace Proofs.BrokerFailoverAlloc Proofs.BrokerFailoverEx.
+  Proofs.BrokerFailoverReplace Proofs.BrokerFailoverAlloc Proofs.BrokerFailoverEpochInv Proofs.BrokerFailoverEx.
 
 (* ---- 1. structure of the four nodes of a chunk, for EVERY chunk in EVERY role position (so also after any failover).
    Node i lives on proxy position (2 <=? i); peer_idx is the peer table 0<->3, 1<->2 of cluster_store_to_cluster.
@@ -386,6 +386,24 @@ Check C06_epoch_invariant_preserved : forall s f ch,
   store_epochs_le s -> store_epochs_le (fst (replace_failed_proxy s f ch)).
 Print Assumptions C06_epoch_invariant_preserved.
 
+(* the invariant for EVERY operation: store_metas_le s (every migration entry of every stored cluster, including
+   shadowed list entries, has mm_epoch <= st_epoch s; it implies store_epochs_le) is kept by step; a restored snapshot must
+   satisfy it itself.  Hence it holds in every store reached from the empty store without ORestore, and there the epoch
+   st_epoch s + 1 used by replace_failed_proxy is strictly newer than every migration epoch present. *)
+Theorem C06_epoch_invariant_step : forall s o,
+  store_metas_le s -> (forall snap, o = ORestore snap -> store_metas_le snap) -> store_metas_le (fst (step s o)).
+Proof. exact step_keeps_metas_le. Qed.
+Check C06_epoch_invariant_step : forall s o,
+  store_metas_le s -> (forall snap, o = ORestore snap -> store_metas_le snap) -> store_metas_le (fst (step s o)).
+Print Assumptions C06_epoch_invariant_step.
+
+Theorem C06_epoch_invariant_reachable : forall ordered ops,
+  (forall o snap, In o ops -> o <> ORestore snap) -> store_epochs_le (run (init_store ordered) ops).
+Proof. exact reachable_epochs_le. Qed.
+Check C06_epoch_invariant_reachable : forall ordered ops,
+  (forall o snap, In o ops -> o <> ORestore snap) -> store_epochs_le (run (init_store ordered) ops).
+Print Assumptions C06_epoch_invariant_reachable.
+
 (* ---------- non-vacuity: concrete mid-migration stores (Proofs/BrokerFailoverEx.v) ----------
    ex_store  = run (init_store false) ex_ops: cluster 1, chunk 0 = proxies 5/4 with BOTH parts migrating out to
                chunk 1 = proxies 8/3 (migration epoch 13);
@@ -461,4 +479,15 @@ Proof.
   split; [vm_compute; reflexivity|].
   split; [apply epochs_le_b_sound; vm_compute; reflexivity|].
   eexists; split; vm_compute; reflexivity.
+Qed.
+
+(* the operation history of the example stores contains no ORestore: C06_epoch_invariant_reachable applies to them *)
+Example C06_epoch_invariant_example :
+  (forall o snap, In o (ex_ops ++ [OReplaceFailed 5 (Some 7); OReplaceFailed 4 (Some 6)]) -> o <> ORestore snap)
+  /\ run (init_store false) (ex_ops ++ [OReplaceFailed 5 (Some 7); OReplaceFailed 4 (Some 6)]) = ex_store2
+  /\ store_metas_le (init_store false).
+Proof.
+  split; [|split; [vm_compute; reflexivity|apply init_metas_le]].
+  intros o snap Hin. cbn [ex_ops app In] in Hin.
+  repeat (destruct Hin as [<-|Hin]; [discriminate|]). destruct Hin.
 Qed.
